@@ -24,8 +24,8 @@
                 (rescan = false) only; finding swc-sparse-scan-race is fixed
      (count_eq_entries_at_quiescence now covers Clear: the defect clear-count-race
       was fixed in /repo by aae41ee and the model follows the repaired code) *)
-From Sdns Require Import Common.Base Common.GoList Gen.C16 C16.Model C16.Conc.
-From Sdns Require Import C16.Proofs_cyc C16.Proofs_tab C16.Proofs_wf C16.Proofs_more C16.Proofs_seg C16.Proofs_hist C16.Proofs_conc C16.Proofs_evict C16.Proofs_cap C16.Proofs_gen.
+From Sdns Require Import Common.Base Common.GoList Gen.C16 C16.Model C16.Conc C16.Limiter.
+From Sdns Require Import C16.Proofs_cyc C16.Proofs_tab C16.Proofs_wf C16.Proofs_more C16.Proofs_seg C16.Proofs_hist C16.Proofs_conc C16.Proofs_evict C16.Proofs_cap C16.Proofs_gen C16.Proofs_lim C16.Proofs_float.
 Open Scope nat_scope.
 
 (* 1. The table invariant (power-of-two length >= 8, no key twice, every probe
@@ -300,6 +300,63 @@ Print Assumptions no_nested_locks.
 Theorem gen_grow_len_pow2_tie : forall p, p < 62 -> go_grow_len (2 ^ N.of_nat p) = N.of_nat (grow_len (2 ^ p)).
 Proof. exact gen_grow_len_pow2. Qed.
 Print Assumptions gen_grow_len_pow2_tie.
+
+(* 14a. The float64 expressions srcgen cannot translate: for every table length the code
+        can have (2^p, 3 <= p <= 61) the IEEE binary64 product float64(len) * 0.75 (Coq's
+        primitive floats, by computation over this finite domain) is the float of the
+        model's growAt, which is the integer expression 3 * len / 4 = 3 * 2^(p-2): grow's and
+        NewUInt64Map's growAt are tied by this, not by differential testing alone.  The
+        capacity division int(float64(c) / 0.75) is checked on a sample only (second theorem). *)
+Theorem float_growAt_is_integer_rule : forall p, 3 <= p <= 61 ->
+  float_mul_ok load_grow_mul (2 ^ Z.of_nat p) = true /\ float_mul_ok load_new_mul (2 ^ Z.of_nat p) = true /\
+  mul_load load_grow_mul (2 ^ Z.of_nat p) = (3 * 2 ^ (Z.of_nat p - 2))%Z.
+Proof.
+  intros p Hp. destruct (float_growAt_all p Hp) as [A B]. split; [exact A|]. split; [exact B|]. apply growAt_integer. lia.
+Qed.
+Print Assumptions float_growAt_is_integer_rule.
+Theorem float_capacity_partial : forallb (float_div_ok load_new_div) cap_samples = true.
+Proof. exact float_capacity_sampled. Qed.
+Print Assumptions float_capacity_partial.
+Example ex_float : float_mul_ok load_grow_mul 1024 = true /\ mul_load load_grow_mul 1024 = 768%Z /\ float_div_ok load_new_div 100 = true /\ div_load load_new_div 100 = 133%Z.
+Proof. vm_compute. repeat split; reflexivity. Qed.
+
+(* 14b. middleware/ratelimit.LimiterStore (Limiter.v: a bounded key -> limiter map with
+        last-seen stamps; the clock and the map's iteration order are inputs).  For every
+        sequence of observed calls the model accepts: a key keeps its limiter until it is
+        evicted (Gets of the key included); Get after a Get that was not evicted returns the
+        same limiter; no two keys ever share a limiter; at most max(maxSize, 1) limiters;
+        an insert never evicts the key it stores. *)
+Theorem limiter_stable : forall ms ops st st' k l, LInv st -> lrun ms st ops = Some st' ->
+  forallb (fun o => negb (evicts k o)) ops = true -> lim_of st k = Some l -> lim_of st' k = Some l.
+Proof. intros ms ops st st' k l. exact (Proofs_lim.limiter_stable ms ops st st' k l). Qed.
+Print Assumptions limiter_stable.
+Theorem limiter_get_after_set : forall ms st k now id v ops now' id' v' st', LInv st ->
+  lrun ms st (OGet k now id v :: ops ++ [OGet k now' id' v']) = Some st' ->
+  forallb (fun o => negb (evicts k o)) ops = true -> id' = id.
+Proof. exact Proofs_lim.limiter_get_after_set. Qed.
+Print Assumptions limiter_get_after_set.
+Theorem limiter_never_shared : forall ms ops st' k1 k2 l, lrun ms [] ops = Some st' ->
+  lim_of st' k1 = Some l -> lim_of st' k2 = Some l -> k1 = k2.
+Proof. exact Proofs_lim.limiter_never_shared. Qed.
+Print Assumptions limiter_never_shared.
+Theorem limiter_bound : forall ms ops st', lrun ms [] ops = Some st' -> (llen st' <= lbound ms)%Z.
+Proof.
+  intros ms ops st' H. apply (Proofs_lim.limiter_bound ms ops [] st'); auto.
+  - split; constructor.
+  - unfold llen, lbound. simpl. lia.
+Qed.
+Print Assumptions limiter_bound.
+Theorem limiter_insert_keeps_own_key : forall ms st k now id v st', LInv st ->
+  lstep ms st (OGet k now id v) = Some st' -> v <> Some k /\ lim_of st' k = Some id.
+Proof. exact Proofs_lim.limiter_insert_keeps_own_key. Qed.
+Print Assumptions limiter_insert_keeps_own_key.
+
+(* a run the model accepts: maxSize 2, three keys, the oldest is evicted, key 7 keeps limiter 1 *)
+Example ex_limiter :
+  exists st', lrun 2 [] [OGet 7 10 1 None; OGet 8 20 2 None; OGet 7 30 1 None; OGet 9 40 3 (Some 8%N); OGet 7 50 1 None] = Some st' /\
+    lim_of st' 7 = Some 1%N /\ lim_of st' 8 = None /\ llen st' = 2%Z /\
+    lrun 2 [] [OGet 7 10 1 None; OGet 8 20 2 None; OGet 7 30 1 None; OGet 9 40 3 (Some 7%N)] = None.
+Proof. eexists. vm_compute. repeat split; reflexivity. Qed.
 
 (* 15. The Go functions themselves, as srcgen translates them on every run
        (Gen.C16: primaryIndex, getSegmentIndex, backwardShiftDelete, EvictKeysAt, Del
